@@ -68,12 +68,14 @@ class Case:
         return "\n".join(out)
 
 
-def run_cases(ctx, exe, hargs, cases, keyfn, tag, env=None, chunk=20000, max_keys=60, what_fn=None, recorder=None, on_fail=None):
+def run_cases(ctx, exe, hargs, cases, keyfn, tag, env=None, chunk=20000, max_keys=60, what_fn=None, recorder=None, on_fail=None,
+              whole_script=False):
     """Runs the cases through the harness (parallel, crash containment).  A crash/hang inside step k of a
     script hides steps k+1..: the remainder is re-run as a script of its own until every step was executed.
     keyfn(case, stepindex, fail) -> finding key.  on_fail(case, stepindex, fail) -> True when the caller deals with
     that failure itself.  recorder(case, stepindex, ret_token) receives the values of
-    steps whose expected value is '?' (record mode).  Returns (nscripts, nsteps, nfailed_steps)."""
+    steps whose expected value is '?' (record mode).  whole_script: the steps of a script share state (one object with a
+    history), so a replay file holds the script up to the failing step, not that step alone.  Returns (nscripts, nsteps, nfailed_steps)."""
     t0 = time.time()
     nscripts = nsteps = nfail = nrerun = 0
     seen_fail = set()
@@ -123,7 +125,8 @@ def run_cases(ctx, exe, hargs, cases, keyfn, tag, env=None, chunk=20000, max_key
                 what = (what_fn(c, at, f) if what_fn else
                         "%s %s: %s exp=%s got=%s %s" % (op, " ".join(args)[:300], f.kind, (f.exp or exp)[:300], f.got[:300], f.sig))
                 if len(ctx.violations) < max_keys or key in ctx.violations:
-                    ctx.report(key, what, {"harness_args": list(hargs), "script_text": Case(1, [c.steps[at]]).text(),
+                    ctx.report(key, what, {"harness_args": list(hargs),
+                                           "script_text": Case(1, c.steps[:at + 1] if whole_script else [c.steps[at]]).text(),
                                            "failure": repr(f)[:2000], "detail": f.detail[:4000], "meta": c.meta})
                 if f.kind in ("crash", "hang", "exit", "inv", "state") and at + 1 < len(c.steps):
                     again.append((c, at + 1))
@@ -139,9 +142,10 @@ class CaseStream:
     """Runs cases through the harness in the background while TLC is still producing them.
         cs = CaseStream(ctx, exe, hargs, keyfn, tag);  cs.add(case) ...;  totals = cs.close()"""
 
-    def __init__(self, ctx, exe, hargs, keyfn, tag, chunk=10000, env=None):
+    def __init__(self, ctx, exe, hargs, keyfn, tag, chunk=10000, env=None, whole_script=False):
         import threading, queue
         self.ctx, self.exe, self.hargs, self.keyfn, self.tag, self.chunk, self.env = ctx, exe, hargs, keyfn, tag, chunk, env
+        self.whole_script = whole_script
         self.q = queue.Queue(maxsize=8)
         self.buf = []
         self.err = []
@@ -159,7 +163,8 @@ class CaseStream:
             k += 1
             try:
                 if not self.err:
-                    run_cases(self.ctx, self.exe, self.hargs, part, self.keyfn, "%s#%d" % (self.tag, k), env=self.env)
+                    run_cases(self.ctx, self.exe, self.hargs, part, self.keyfn, "%s#%d" % (self.tag, k), env=self.env,
+                              whole_script=self.whole_script)
             except Exception as e:      # surfaced by close()
                 self.err.append(e)
 
